@@ -41,8 +41,9 @@ LAST = "insn(last_0, {f(k, (1));})\n"
 TIERS = {
     # maxlen: tokens per BODY for the full product (all names);  deep: one more token with one name
     # load_names: names that are also driven through a scratch file
-    "quick": dict(maxlen=6, plen=3, deep=None, load_names=("A1",), cstmts=4, czone=3),
-    "thorough": dict(maxlen=7, plen=3, deep=8, load_names=("A1", "9"), cstmts=5, czone=3),
+    # cstmts / czone / ctotal: statement alphabet size, statements per zone, statements per compound
+    "quick": dict(maxlen=6, plen=3, deep=None, load_names=("A1",), cstmts=4, czone=3, ctotal=6),
+    "thorough": dict(maxlen=7, plen=3, deep=8, load_names=("A1",), cstmts=5, czone=3, ctotal=7),
 }
 
 MAX_EXAMPLES = 3  # replay files per (work item, rule set)
@@ -124,8 +125,7 @@ def _load():
     _PP.behaviors = dict()  # class-level dict: every load starts from empty
     pp = _PP(Path("unused-by-load_insn_behavior"))
     try:
-        with contextlib.redirect_stdout(io.StringIO()):
-            pp.load_insn_behavior()
+        pp.load_insn_behavior()  # its log() line is silent: Helper.LOG_LEVEL is -1 (drive._quiet_import)
     except Exception as e:
         return ("raise", type(e).__name__)
     got = pp.behaviors
@@ -156,6 +156,7 @@ class Agg:
     def __init__(self):
         self.c = {}
         self.bad = {}  # ids tuple -> [count, examples]
+        self.samples = {}  # tag -> one real evaluated case
 
     def n(self, key, k=1):
         self.c[key] = self.c.get(key, 0) + k
@@ -170,12 +171,19 @@ class Agg:
             c["why"] = why
             slot[1].append(c)
 
+    def sample(self, tag, case):
+        self.samples[tag] = case  # the last one of the item: the longest bodies come last
+
     def result(self):
-        return self.c, {k: (v[0], v[1]) for k, v in self.bad.items()}
+        return self.c, {k: (v[0], v[1]) for k, v in self.bad.items()}, self.samples
+
+
+_SAMPLES = {}
 
 
 def merge(ctx, total, results):
-    for c, bad in results:
+    for c, bad, samples in results:
+        _SAMPLES.update(samples)
         for k, v in c.items():
             total[k] = total.get(k, 0) + v
         for ids, (count, examples) in bad.items():
@@ -256,8 +264,12 @@ def lines_of_body(agg, body, names, load_names):
                     raise core.HarnessError("reference scanner disagrees with construction on %r: %r" % (line, s))
                 if out[0] != "ok" or out[1] != s:
                     agg.fail({"kind": "line", "line": line, "variant": vid}, R.triage(R.line_conforms, line, out))
+                elif vid == "wf-nl":
+                    agg.sample("line well-formed", {"kind": "line", "line": line, "scanner": s, "got": out})
             elif out[0] == "raise":
                 agg.n("lines_not_wellformed_rejected")
+                if vid in ("blank-cr", "trail-sp-x"):
+                    agg.sample("line " + vid, {"kind": "line", "line": line, "scanner": "tolerant reading %r" % (R.scan_tolerant(line),) if R.scan_tolerant(line) else "malformed", "got": out})
             else:
                 agg.n("lines_not_wellformed_accepted")
                 v = R.triage(R.line_conforms, line, out)
@@ -271,6 +283,8 @@ def lines_of_body(agg, body, names, load_names):
                 v = R.triage(R.load_conforms, text, lout)
                 if v is not None:
                     agg.fail({"kind": "load", "text": text, "variant": vid}, v)
+                elif vid == "wf-nl" and R.MARK in body:
+                    agg.sample("load", {"kind": "load", "text": text, "got": lout})
 
 
 def work_lines(item):
@@ -309,12 +323,14 @@ def work_bodyless(name):
 
 
 def work_compounds(item):
-    pre, layout, k, maxn = item
+    pre, layout, k, maxn, maxtotal = item
     stmts = R.STATEMENTS[:k]
     seqs = R.zone_sequences(k, maxn)
     agg = Agg()
     for inside in seqs:
         for post in seqs:
+            if len(pre) + len(inside) + len(post) > maxtotal:
+                continue
             body = R.compound_body(pre, inside, post, layout, stmts)
             cls, p, blk, q = R.classify_compound(body)
             want = "tolerant" if (layout == "blank-before-block" or (layout == "tight" and not inside)) else "strict"
@@ -334,6 +350,8 @@ def work_compounds(item):
             v = R.triage(R.compound_conforms, body, out)
             if v is not None:
                 agg.fail({"kind": "compound", "body": body, "layout": layout}, v)
+            else:
+                agg.sample("compound " + layout, {"kind": "compound", "body": body, "class": cls, "statements": R.flat(p) + R.flat(blk[1:-1]) + R.flat(q), "got": out})
             line = "insn(A1, " + body + ")\n"
             s = R.scan_strict(line)
             if s != ("A1", body):
@@ -559,8 +577,8 @@ def run(ctx):
         merge(ctx, total, core.pmap(work_bodyless, list(names), seed=ctx.seed))
 
         # ---- K
-        k, maxn = P["cstmts"], P["czone"]
-        citems = [(pre, layout, k, maxn) for pre in R.zone_sequences(k, maxn) for layout in R.LAYOUTS]
+        k, maxn, maxtotal = P["cstmts"], P["czone"], P["ctotal"]
+        citems = [(pre, layout, k, maxn, maxtotal) for pre in R.zone_sequences(k, maxn) for layout in R.LAYOUTS]
         merge(ctx, total, core.pmap(work_compounds, citems, seed=ctx.seed))
         ctx.log("generated compounds: %d" % total.get("compounds", 0))
     finally:
@@ -568,12 +586,9 @@ def run(ctx):
 
     evaluations = total.get("line_calls", 0) + total.get("load_calls", 0) + total.get("compound_calls", 0)
     nontrivial = total.get("bodies_nontrivial", 0) + total.get("compounds", 0) + stats["bundled_lines"]
-    ctx.sample({"kind": "line", "line": "insn(x_9z, f((x),{;}))\n", "expected": R.scan_strict("insn(x_9z, f((x),{;}))\n")})
-    ctx.sample({"kind": "line", "line": "insn(a, f(x)) \n", "expected": "rejected, or ('a', 'f(x)')"})
-    ctx.sample({"kind": "line", "line": "x insn(a, {x})\n", "expected": "rejected"})
-    b = R.compound_body((0,), (1, 3), (2,), "data")
-    ctx.sample({"kind": "compound", "body": b, "expected_statements": R.flat(b.replace(R.MARK, "")), "a_conforming_split": R.ref_split(b)})
-    ctx.sample({"kind": "load", "text": file_for("insn(A1, {" + R.MARK + "{a;}" + R.MARK + "f(x, y);})\n"), "expected": {"first_0": ["{k = 1;}"], "A1": ["{a;}", "{f(x, y);}"], "last_0": ["{f(k, (1));}"]}})
+    for tag in ("line well-formed", "line blank-cr", "line trail-sp-x", "load", "compound data", "compound tight"):
+        if tag in _SAMPLES:
+            ctx.sample(_SAMPLES[tag])
     cov = dict(total)
     cov.update(
         evaluations=evaluations,
@@ -586,7 +601,7 @@ def run(ctx):
             "(well-formed with/without line end; blanks/CR after the final ')'; no blank after the comma; missing ')'; text after ')'; text before 'insn('; empty name; missing comma; "
             "wrong prefix; non-word character in the name), all through split_resolved_shortcode, and for NAME in %r also through load_insn_behavior on a real scratch file "
             "(line marker, ordinary line, the generated line, ordinary line)%s; 13 body-less lines per name.  "
-            "K: every arrangement of 0..%d statements from %r in each of the zones before / inside / after the two markers x spacings %r, through split_compounds, "
+            "K: every arrangement of 0..%d statements from %r in each of the zones before / inside / after the two markers (at most %d statements per body) x spacings %r, through split_compounds, "
             "split_resolved_shortcode and load_insn_behavior.  Verdicts come from the scanners in vf.c19ref (strict / tolerant / malformed line; strict / tolerant / other compound).  "
             "distinct_nontrivial = generated bodies containing a bracket, comma, semicolon, blank or marker + generated compound bodies + bundled lines "
             "(measured; bodies are pairwise different by construction, checked on the bodies of up to 6 tokens)."
@@ -600,6 +615,7 @@ def run(ctx):
                 ("; plus every body of exactly %d tokens with NAME 'A1' through split_resolved_shortcode" % P["deep"]) if P["deep"] else "",
                 maxn,
                 list(R.STATEMENTS[:k]),
+                maxtotal,
                 list(R.LAYOUTS),
             )
         ),
